@@ -167,3 +167,24 @@ class Model:
             for m in range(q[u]):
                 a *= (xv - m)
         return a
+
+
+def tame_dt(model, flags=None, frac=0.02, x=None):
+    """A power-of-ten time step (seconds) such that no entry changes by more than ~frac of max(|x|, 1) per
+    step -- evaluated on the given state AND on the state with every entry raised to the largest amount
+    present (so that a system that is nearly static now, but can become fast once products appear, does not
+    get an absurdly large step). Used by generators only: a step that is too coarse for the kinetics makes
+    fixed-step runs explode, which is a user error and not a valid script."""
+    import math
+    x = list(model.state() if x is None else x)
+    top = max([abs(v) for v in x] + [1.0])
+    best = None
+    for xs in (x, [max(abs(v), top) for v in x]):
+        dx, sc = model.derivative(xs, mask=flags)
+        for xv, s_ in zip(xs, sc):
+            if s_ > 0:
+                r_ = max(abs(xv), 1.0) / s_
+                best = r_ if best is None else min(best, r_)
+    if best is None:
+        return 1e-3
+    return 10.0 ** math.floor(math.log10(best * frac))
